@@ -70,11 +70,54 @@ def post_ring(ctx, ops, impl):
         if key in by_set and by_set[key][1] != i:
             bad.append((by_set[key][0], o, "same node set, different order: different result"))
         by_set.setdefault(key, (o, i))
+    # minimal movement: consecutive lines with the same keys whose node lists differ by one removed node
+    rows = [(o.split(" "), i.split(" ")) for o, i in zip(ops, impl)]
+    for (p1, i1), (p2, i2) in zip(rows, rows[1:]):
+        if p1[1:3] != p2[1:3] or p1[4] != p2[4] or len(i1) != 3 or len(i2) != 3:
+            continue
+        n1, n2 = p1[3].split(","), p2[3].split(",")
+        if len(n1) != len(n2) + 1 or len(set(n1)) != len(n1):
+            continue
+        removed = [x for x in n1 if x not in n2]
+        if len(removed) != 1 or [x for x in n1 if x != removed[0]] != n2:
+            continue
+        for a, b in zip(i1[2].split(","), i2[2].split(",")):
+            if a != removed[0] and a != b:
+                bad.append((" ".join(p1), " ".join(p2), "removing a node moved a key it did not own"))
+                break
     return bad
+
+
+def tr_election(ctx):
+    from .. import core
+    ok, msg = core.run_translator("election", "Election.lean", ctx.log)
+    return ok, msg
+
+
+def explore(ctx):
+    """Bounded search over the REGENERATED election model for a schedule that violates safety (support, not proof)."""
+    from .. import core, runner
+    import os
+    if not os.path.exists(core.DRIVER):
+        return
+    cfgs = [(3, 8, 150000), (4, 8, 150000)] if ctx.tier == "quick" else [(3, 12, 1500000), (4, 11, 1500000), (5, 9, 1500000)]
+    lines = [f"elect.explore {n} {d} {b}" for n, d, b in cfgs]
+    outs = core.driver_lines(lines)
+    res = []
+    for l, o in zip(lines, outs):
+        res.append({"op": l, "model": o})
+        if not o.startswith("none"):
+            p = runner.write_replay(ctx, f"election-{len(ctx.violations)}", dict(
+                kind="failing-input", stream="election-explorer", ops=[l], model=[o],
+                explanation="schedule found in the election model regenerated from cluster_leader.go: " + o))
+            ctx.violations.append((p, True))
+    ctx.cov.setdefault("extra", {})["election_explorer"] = res
 
 
 PROP = dict(
     id="C17",
+    translators=[tr_election],
+    extra=[explore],
     level_text="Kernel-checked Lean theorems for the ring, for ANY hash function, replica count and total order on names: order "
                "independence (equal sorted replica list, hence equal owners and signature), totality, minimal movement on "
                "removal and addition; for the election, safety invariants over an interleaving model with arbitrary loss, delay "
@@ -85,7 +128,9 @@ PROP = dict(
                "sorted replica list (digest collisions ignored).",
     technique="Lean 4 proof (sorted-permutation uniqueness, induction over find/filter) + differential correspondence; T2 regenerated guards for the election",
     modules=["TinodeVerif.Props.C17"],
-    theorems=[T + n for n in ["ring_perm_invariant", "get_perm_invariant", "ring_total", "ring_remove_minimal", "ring_add_minimal"]],
+    theorems=[T + n for n in ["ring_perm_invariant", "get_perm_invariant", "ring_total", "ring_remove_minimal", "ring_add_minimal", "shape_ok", "sig_gate",
+                              "one_vote_per_term", "majority_needed", "election_safety", "term_monotone", "health_step",
+                              "partitioned_leader_stops"]],
     streams=[dict(name="ring", pkg="ringhash", gen=gen_ring, classify=classify, post=post_ring)],
     seeds=dict(quick=1, thorough=3),
     rule="all permutations of random node-name sets of size 0..4 (5 thorough) under CRC-32 and under a 7-valued colliding hash, "
